@@ -157,6 +157,8 @@ def run(ck, ctx):
     # the depfile is consulted on every successful run of a step that declares one (also with deps = msvc): TaskResult.discovered_deps sources
     from . import C09 as R09
     R09.showincludes(ck, ctx)
+    # ... and what was parsed becomes the step's list whatever its length (an empty depfile empties the list)
+    R09.replace_on_success(ck, ctx)
     C.adapter_census(ck, ctx, "flatten", ("depfile::", "task::", "smallmap::"))
     missing_empty(ck, ctx)
     parse_error(ck, ctx)
